@@ -1,6 +1,8 @@
 package main
 
 import (
+	"fmt"
+	"os"
 	"go/token"
 	"go/types"
 	"sort"
@@ -27,6 +29,7 @@ const (
 )
 
 type Site struct {
+	paramIdx int // SDyn: index of the parameter the called value is taken from (-1: none)
 	Fn     *ssa.Function
 	Instr  ssa.Instruction
 	Kind   SiteKind
@@ -301,6 +304,14 @@ func (w *World) buildEffects() *Effects {
 						continue
 					}
 					s := &Site{Fn: fn, Instr: in, Kind: SDyn, Pos: pos}
+					s.paramIdx = -1
+					if pr := funcParamRoot(c.Value, 0); pr != nil {
+						for k, q := range fn.Params {
+							if q == pr {
+								s.paramIdx = k
+							}
+						}
+					}
 					if o, f, ok := fieldOf(c.Value); ok {
 						s.Owner, s.Field = typeName(o), f
 					} else {
@@ -312,6 +323,7 @@ func (w *World) buildEffects() *Effects {
 		}
 	}
 	e.resolveParamReceivers()
+	e.dropParamDynCalls()
 	sort.SliceStable(e.Sites, func(i, j int) bool { return e.Sites[i].Pos < e.Sites[j].Pos })
 	return e
 }
@@ -604,6 +616,23 @@ func localFuncValue(v ssa.Value, depth int, seen map[ssa.Value]bool) bool {
 	switch x := v.(type) {
 	case *ssa.MakeClosure, *ssa.Function:
 		return true
+	case *ssa.Call:
+		// the result of a module factory that returns a closure it creates (a "step" constructor):
+		// the factory is a static callee of the caller, its closure an edge of the factory
+		cal := x.Common().StaticCallee()
+		if cal == nil || cal.Blocks == nil || cal.Signature.Results().Len() != 1 {
+			return false
+		}
+		for _, b := range cal.Blocks {
+			for _, in := range b.Instrs {
+				if r, ok := in.(*ssa.Return); ok {
+					if len(r.Results) != 1 || !localFuncValue(r.Results[0], depth+1, seen) {
+						return false
+					}
+				}
+			}
+		}
+		return true
 	case *ssa.Phi:
 		for _, e := range x.Edges {
 			if !localFuncValue(e, depth+1, seen) {
@@ -683,6 +712,127 @@ func allocHoldsLocalFuncs(al *ssa.Alloc, depth int, seen map[ssa.Value]bool) boo
 			default:
 				return false
 			}
+		}
+	}
+	return n > 0
+}
+
+// funcParamRoot: the parameter a called function value is taken from (the parameter itself, an
+// element of a slice / array parameter, a field of a struct parameter), if any.
+func funcParamRoot(v ssa.Value, depth int) *ssa.Parameter {
+	if depth > 8 {
+		return nil
+	}
+	switch x := v.(type) {
+	case *ssa.Parameter:
+		return x
+	case *ssa.UnOp:
+		if x.Op == token.MUL {
+			return funcParamRoot(x.X, depth+1)
+		}
+	case *ssa.IndexAddr:
+		return funcParamRoot(x.X, depth+1)
+	case *ssa.Index:
+		return funcParamRoot(x.X, depth+1)
+	case *ssa.Field:
+		return funcParamRoot(x.X, depth+1)
+	case *ssa.FieldAddr:
+		return funcParamRoot(x.X, depth+1)
+	case *ssa.ChangeType:
+		return funcParamRoot(x.X, depth+1)
+	case *ssa.Phi:
+		var r *ssa.Parameter
+		for _, e := range x.Edges {
+			p := funcParamRoot(e, depth+1)
+			if p == nil || (r != nil && r != p) {
+				return nil
+			}
+			r = p
+		}
+		return r
+	}
+	return nil
+}
+
+// dropParamDynCalls: a private helper that calls function values it was GIVEN (a runner of an
+// ordered list of checks, a visitor) has no effect of its own at that call: the effects are
+// those of the functions its callers hand over, which are already edges of those callers.  The
+// dynamic-call site is dropped when every static caller passes, at that position, only
+// function values it created itself (closures, functions, method values).
+func (e *Effects) dropParamDynCalls() {
+	callers := map[*ssa.Function][]*Site{}
+	for _, s := range e.Sites {
+		if s.Kind == SStatic && s.Target != nil {
+			callers[s.Target] = append(callers[s.Target], s)
+		}
+	}
+	keep := e.Sites[:0]
+	for _, s := range e.Sites {
+		if s.Kind != SDyn || s.paramIdx < 0 || len(callers[s.Fn]) == 0 {
+			keep = append(keep, s)
+			continue
+		}
+		ok := true
+		for _, cs := range callers[s.Fn] {
+			ci, isCall := cs.Instr.(ssa.CallInstruction)
+			if !isCall || s.paramIdx >= len(ci.Common().Args) {
+				ok = false
+				break
+			}
+			a := ci.Common().Args[s.paramIdx]
+			if !localFuncValue(a, 0, map[ssa.Value]bool{}) && !localFuncSlice(a) {
+				if os.Getenv("OPV_DEBUG") != "" {
+					fmt.Fprintf(os.Stderr, "dropParamDynCalls: %s keeps its dynamic call: caller %s passes %T %s\n", s.Fn, cs.Fn, a, a)
+				}
+				ok = false
+				break
+			}
+		}
+		if !ok {
+			keep = append(keep, s)
+		}
+	}
+	e.Sites = keep
+	kept := map[*Site]bool{}
+	for _, s := range keep {
+		kept[s] = true
+	}
+	for f, ss := range e.byFn {
+		out := ss[:0]
+		for _, s := range ss {
+			if kept[s] {
+				out = append(out, s)
+			}
+		}
+		e.byFn[f] = out
+	}
+}
+
+// localFuncSlice: a slice (variadic pack or literal) whose backing array holds only local function values.
+func localFuncSlice(v ssa.Value) bool {
+	sl, ok := v.(*ssa.Slice)
+	if !ok {
+		return false
+	}
+	al, ok := sl.X.(*ssa.Alloc)
+	if !ok {
+		return false
+	}
+	n := 0
+	for _, r := range *al.Referrers() {
+		switch u := r.(type) {
+		case *ssa.IndexAddr:
+			for _, r2 := range *u.Referrers() {
+				if st, ok := r2.(*ssa.Store); ok && st.Addr == u {
+					n++
+					if !localFuncValue(st.Val, 0, map[ssa.Value]bool{}) {
+						return false
+					}
+				}
+			}
+		case *ssa.Slice, *ssa.DebugRef:
+		default:
+			return false
 		}
 	}
 	return n > 0
